@@ -413,7 +413,21 @@ func (e *Engine) addGlobalFacts(g *ssa.Global, c *Term, t types.Type) {
 	case *types.Interface:
 		// package-level error values: non-nil, pairwise distinct (assumption, listed in evidence)
 		if spec != nil && len(spec.Values) > idx {
-			e.addGlobalFact(tb.Not(tb.Eq(tb.Acc(c, 0), tb.Int(0))))
+			// non-nil; its dynamic type is none of the types this run boxes itself (tags >= 100000 are
+			// reserved for dynamic types the engine does not know)
+			std := false
+			if ce, ok := spec.Values[idx].(*ast.CallExpr); ok {
+				if se, ok := ce.Fun.(*ast.SelectorExpr); ok {
+					if id, ok := se.X.(*ast.Ident); ok && ((id.Name == "errors" && se.Sel.Name == "New") || (id.Name == "fmt" && se.Sel.Name == "Errorf")) {
+						std = true
+					}
+				}
+			}
+			if std {
+				e.addGlobalFact(tb.IntCmp(">=", tb.Acc(c, 0), tb.Int(100000)))
+			} else {
+				e.addGlobalFact(tb.Not(tb.Eq(tb.Acc(c, 0), tb.Int(0))))
+			}
 			e.errGlobals = append(e.errGlobals, c)
 		}
 	case *types.Basic:
